@@ -54,43 +54,50 @@ def St.clearOut (s : St) : St := { s with l := ⟨{ s.l.1 with out := [] }, linv
 def St.say (s : St) (line : String) : St := s.run [.say line]
 def St.newH (s : St) (h : H) : St := { s with hs := s.hs ++ [h] }
 
-/-- next occurrence of syscall `name` in this op: returns the injected errno if it is made to fail -/
-def St.sys (s : St) (inj : Inj) (name : String) : Option Nat × St :=
-  let n := ((s.cnt.find? (·.1 = name)).map (·.2)).getD 0 + 1
-  let s := { s with cnt := (name, n) :: s.cnt.filter (·.1 ≠ name) }
-  match failsAt inj name n with
-  | some e => (some e, s.say s!"env fail {name} {e}")
-  | none => (none, s)
+/-- occurrence number the next call of syscall `name` has in this op -/
+def St.occ (s : St) (name : String) : Nat := ((s.cnt.find? (·.1 = name)).map (·.2)).getD 0 + 1
+/-- the injected errno if the next call of `name` is made to fail -/
+def St.fails (s : St) (inj : Inj) (name : String) : Option Nat := failsAt inj name (s.occ name)
+/-- account for that call (and log the injected failure) -/
+def St.tick (s : St) (inj : Inj) (name : String) : St :=
+  let s' := { s with cnt := (name, s.occ name) :: s.cnt.filter (·.1 ≠ name) }
+  match s.fails inj name with
+  | some e => s'.say s!"env fail {name} {e}"
+  | none => s'
 
 /-- uv__stream_init (stream.c:99-110): make sure the loop has its spare descriptor -/
 def emfileInit (s : St) (inj : Inj) : St :=
   if s.has (.loop .emfile) then s else
-  match s.sys inj "open" with
-  | (none, s) => s.run [.create .openCloexec .file (.loop .emfile)]
-  | (some _, s) =>
-    match s.sys inj "open" with
-    | (none, s) => s.run [.create .openCloexec .file (.loop .emfile)]
-    | (some _, s) => s
-
-def nQueued (s : St) (h : Nat) : Nat := (s.l.1.led.filter (·.owner = .handle h .q)).length
+  match s.fails inj "open" with
+  | none => (s.tick inj "open").run [.create .openCloexec .file (.loop .emfile)]
+  | some _ =>
+    let s := s.tick inj "open"
+    match s.fails inj "open" with
+    | none => (s.tick inj "open").run [.create .openCloexec .file (.loop .emfile)]
+    | some _ => s.tick inj "open"
 
 /-- uv__stream_close (stream.c:1540-1563) -/
-def streamClosePrims (s : St) (h : Nat) : List Prim :=
-  [.closeOwner (.handle h .io) true, .closeOwner (.handle h .acc) false] ++
-  List.replicate (nQueued s h) (.closeOwner (.handle h .q) false)
+def streamClosePrims (h : Nat) : List Prim :=
+  [.closeOwner (.handle h .io) true, .closeOwner (.handle h .acc) false, .closeQ h]
+
+def isStream (k : HKind) : Bool := k = .tcp || k = .pipe || k = .tty
+
+def acceptOk (s : St) (cli : Nat) (ckind : HKind) : Bool :=
+  !s.has (.handle cli .io) && (ckind = .tcp || ckind = .pipe || ckind = .udp || ckind = .tty)
 
 /-- uv_accept (stream.c:536-598) -/
-def acceptInto (s : St) (srv cli : Nat) (ckind : HKind) : St × Bool :=
-  let ok := !s.has (.handle cli .io) && (ckind = .tcp || ckind = .pipe || ckind = .udp || ckind = .tty)
+def acceptInto (s : St) (srv cli : Nat) (ckind : HKind) : St :=
   -- a connection taken from a listen backlog is bound; a descriptor received over IPC is whatever the sender made
   let fromIpc := ((s.h? srv).map (·.ipc)).getD false
-  let s := if ok then (s.run [.transfer (.handle srv .acc) (.handle cli .io)]).setH cli (fun h => { h with readable := true, bound := !fromIpc, connected := !fromIpc })
+  let s := if acceptOk s cli ckind then
+             (s.run [.transfer (.handle srv .acc) (.handle cli .io)]).setH cli
+               (fun h => { h with readable := true, bound := !fromIpc, connected := !fromIpc })
            else
              -- stream.c:592-596: POLLIN is re-armed only `if (err == 0)`: after a failed uv_accept the server
              -- stops accepting until uv_listen is called again
              (s.run [.closeOwner (.handle srv .acc) false]).setH srv (fun h => { h with listening := false })
-  let s := if nQueued s srv > 0 then s.run [.transfer (.handle srv .q) (.handle srv .acc)] else s
-  (s, ok)
+  -- done: the next queued descriptor (if any) becomes the pending one
+  s.run [.transfer (.handle srv .q) (.handle srv .acc)]
 
 /-- uv_stdio_container_t: UV_IGNORE, UV_CREATE_PIPE into pipe handle h, UV_INHERIT_FD of user descriptor f,
     UV_INHERIT_STREAM of stream handle h -/
@@ -117,65 +124,75 @@ inductive Op
 def ret (s : St) (ok : Bool) : St := s.say (if ok then "ret 0" else "ret E")
 def bad (s : St) : St := s.say "bad-op"
 
-def isStream (k : HKind) : Bool := k = .tcp || k = .pipe || k = .tty
+/-! ## uv_run: one readiness event at a time -/
 
-/-- one readiness event inside uv_run: a listening server with a pending connection
-    (uv__server_io, stream.c:508-533, with uv__emfile_trick 484-505), or an IPC pipe with descriptors
-    in flight (uv__read → uv__stream_recv_cmsg, stream.c:981-1021) -/
-def runStep (s : St) (inj : Inj) : Option St :=
-  let idx := List.range s.hs.length
-  match idx.find? (fun i => match s.liveH i with
-      | some h => h.listening && h.pending > 0 && !s.has (.handle i .acc) | none => false) with
-  | some i =>
-    let h := (s.h? i).getD { kind := .tcp }
-    match s.sys inj "accept4" with
-    | (some e, s) =>
-      if e = 24 || e = 23 then
-        if !s.has (.loop .emfile) then some s else
-        let s := s.run [.closeOwner (.loop .emfile) false]
-        -- accept and close until the backlog is empty (or accept fails again)
-        let rec shed (s : St) : Nat → St
-          | 0 => s
-          | n + 1 =>
-            match s.sys inj "accept4" with
-            | (some _, s) => s
-            | (none, s) => shed ((s.run [.create .uvAccept .sock (.temp 0), .closeOwner (.temp 0) false]).setH i
-                                  (fun h => { h with pending := h.pending - 1 })) n
-        let s := shed s h.pending
-        match s.sys inj "open" with
-        | (none, s) => some (s.run [.create .openCloexec .file (.loop .emfile)])
-        | (some _, s) => some s
-      else some s
-    | (none, s) =>
-      let s := (s.run [.create .uvAccept .sock (.handle i .acc)]).setH i (fun h => { h with pending := h.pending - 1 })
-      let s := s.say s!"cb conn h{i} 0"
-      if h.policy = 1 then
-        let c := s.hs.length
-        let s := emfileInit (s.newH { kind := h.kind }) inj
-        let (s, ok) := acceptInto s i c h.kind
-        some (s.say s!"cb accept h{i} h{c} {if ok then "0" else "E"}")
-      else some s
+/-- a listening server with a connection in its backlog and no connection held (POLLIN armed) -/
+def serverReady (s : St) : Option Nat :=
+  (List.range s.hs.length).find? (fun i => match s.liveH i with
+    | some h => isStream h.kind && h.listening && h.pending > 0 && !s.has (.handle i .acc) | none => false)
+
+/-- an IPC pipe that is reading and has descriptors in flight -/
+def ipcReady (s : St) : Option Nat :=
+  (List.range s.hs.length).find? (fun i => match s.liveH i with
+    | some h => h.kind = .pipe && h.reading && !h.inflight.isEmpty && s.has (.handle i .io) | none => false)
+
+/-- the user's callback initialises a fresh handle of kind `k` (uv_tcp_init / uv_pipe_init run uv__stream_init,
+    uv_udp_init does not) and calls uv_accept(server i, it) -/
+def cbAccept (s : St) (inj : Inj) (i : Nat) (k : HKind) (streamInit : Bool) : St :=
+  let c := s.hs.length
+  let s := s.newH { kind := k }
+  let s := if streamInit then emfileInit s inj else s
+  let ok := acceptOk s c k
+  (acceptInto s i c k).say s!"cb accept h{i} h{c} {if ok then "0" else "E"}"
+
+/-- uv__emfile_trick's loop (stream.c:494-498): accept and close until the backlog is empty or accept fails -/
+def shed (inj : Inj) (i : Nat) : Nat → St → St
+  | 0, s => s
+  | n + 1, s =>
+    match s.fails inj "accept4" with
+    | some _ => s.tick inj "accept4"
+    | none => shed inj i n (((s.tick inj "accept4").run [.create .uvAccept .sock (.temp 0), .closeOwner (.temp 0) false]).setH i
+                            (fun h => { h with pending := h.pending - 1 }))
+
+/-- uv__server_io (stream.c:508-533) with uv__emfile_trick (484-505) -/
+def serverEvent (s : St) (inj : Inj) (i : Nat) : St :=
+  let h := (s.h? i).getD { kind := .tcp }
+  match s.fails inj "accept4" with
+  | some e =>
+    let s := s.tick inj "accept4"
+    if e = 24 || e = 23 then
+      if !s.has (.loop .emfile) then s else
+      let s := shed inj i h.pending (s.run [.closeOwner (.loop .emfile) false])
+      match s.fails inj "open" with
+      | none => (s.tick inj "open").run [.create .openCloexec .file (.loop .emfile)]
+      | some _ => s.tick inj "open"
+    else s
   | none =>
-    match idx.find? (fun i => match s.liveH i with
-        | some h => h.reading && !h.inflight.isEmpty && s.has (.handle i .io) | none => false) with
+    let s := ((s.tick inj "accept4").run [.create .uvAccept .sock (.handle i .acc)]).setH i (fun h => { h with pending := h.pending - 1 })
+    let s := s.say s!"cb conn h{i} 0"
+    if h.policy = 1 then cbAccept s inj i h.kind true else s
+
+/-- uv__read → uv__stream_recv_cmsg (stream.c:981-1021), then the read callback -/
+def ipcEvent (s : St) (inj : Inj) (i : Nat) : St :=
+  let h := (s.h? i).getD { kind := .pipe }
+  let batch := h.inflight.headD []
+  let s := s.setH i (fun h => { h with inflight := h.inflight.tail })
+  let s := batch.foldl (fun s _ =>
+    if s.has (.handle i .acc) then s.run [.create .recvCmsg .ipc (.handle i .q)]
+    else s.run [.create .recvCmsg .ipc (.handle i .acc)]) s
+  let s := s.say s!"cb read h{i} 1"
+  if h.policy = 1 then
+    batch.foldl (fun s k =>
+      if !s.has (.handle i .acc) then s else cbAccept s inj i k (isStream k)) s
+  else s
+
+def runStep (s : St) (inj : Inj) : Option St :=
+  match serverReady s with
+  | some i => some (serverEvent s inj i)
+  | none =>
+    match ipcReady s with
+    | some i => some (ipcEvent s inj i)
     | none => none
-    | some i =>
-      let h := (s.h? i).getD { kind := .pipe }
-      let batch := h.inflight.headD []
-      let s := s.setH i (fun h => { h with inflight := h.inflight.tail })
-      let s := batch.foldl (fun s _ =>
-        if s.has (.handle i .acc) then s.run [.create .recvCmsg .ipc (.handle i .q)]
-        else s.run [.create .recvCmsg .ipc (.handle i .acc)]) s
-      let s := s.say s!"cb read h{i} 1"
-      if h.policy = 1 then
-        some (batch.foldl (fun s k =>
-          if !s.has (.handle i .acc) then s else
-          let c := s.hs.length
-          let s := s.newH { kind := k }
-          let s := if isStream k then emfileInit s inj else s
-          let (s, ok) := acceptInto s i c k
-          s.say s!"cb accept h{i} h{c} {if ok then "0" else "E"}") s)
-      else some s
 
 def runLoop (inj : Inj) : Nat → St → St
   | 0, s => s
@@ -185,51 +202,62 @@ def runLoop (inj : Inj) : Nat → St → St
 
 def runFuel (s : St) : Nat := (s.hs.map (fun h => h.pending + h.inflight.length)).sum + 1
 
-/-- uv_spawn, parent side (process.c:986-1110 and 935-980).  `cs`: containers; index 1 is always an
-    inherited descriptor of the harness (no ledger effect). -/
+/-! ## uv_spawn, parent side (process.c:986-1110 and 935-980)
+
+`pipes[m][0]` / `pipes[m][1]` of the m-th UV_CREATE_PIPE container are the locals `temp (2m)` / `temp (2m+1)`;
+the exec-error pipe is `temp (2M)`, `temp (2M+1)` with M = number of UV_CREATE_PIPE containers. -/
+
+def pipeHandles (cs : List Cont) : List Nat := cs.filterMap (fun c => match c with | .pipe h => some h | _ => none)
+
+/-- the `error:` label (process.c:1093-1108): `if (pipes[i][k] != -1) close(pipes[i][k])` for every slot -/
+def sweepPrims (lo hi : Nat) : List Prim := (List.range' lo (hi - lo)).map (fun k => Prim.closeOwner (.temp k) false)
+
+/-- uv__process_init_stdio for each container, in order (process.c:188-239); `m` = pipes created so far;
+    `none` = failed (everything created so far is closed) -/
+def initStdio (inj : Inj) : St → Nat → List Cont → St × Option Nat
+  | s, m, [] => (s, some m)
+  | s, m, .pipe _ :: rest =>
+    (match s.fails inj "socketpair" with
+    | some _ => ((s.tick inj "socketpair").run (sweepPrims 0 (2 * m)), none)
+    | none => initStdio inj ((s.tick inj "socketpair").run
+                [.create .socketpair .sock (.temp (2 * m)), .create .socketpair .sock (.temp (2 * m + 1))]) (m + 1) rest)
+  | s, m, .stream h :: rest =>
+    -- a stream without descriptor: UV_EINVAL
+    if s.has (.handle h .io) then initStdio inj s m rest else (s.run (sweepPrims 0 (2 * m)), none)
+  | s, m, _ :: rest => initStdio inj s m rest
+
+/-- uv__process_open_stream for each UV_CREATE_PIPE container, in order (process.c:242-262, 1074-1085);
+    `done`: streams opened so far, latest first -/
+def openStreams (M : Nat) : St → Nat → List Nat → List Nat → St × Bool
+  | s, _, _, [] => (s, true)
+  | s, m, done, h :: rest =>
+    let s := s.run [.closeOwner (.temp (2 * m + 1)) false]
+    if s.has (.handle h .io) then
+      -- UV_EBUSY: close the streams opened so far (latest first), then everything still in pipes[][]
+      let s := done.foldl (fun s hj => s.run (streamClosePrims hj)) s
+      (s.run (sweepPrims (2 * m) (2 * M)), false)
+    else
+      openStreams M ((s.run [.transfer (.temp (2 * m)) (.handle h .io)]).setH h (fun x => { x with readable := true }))
+        (m + 1) (h :: done) rest
+
+/-- uv__spawn_and_init_child: the exec-error pipe (process.c:939-977), created and closed inside the call -/
+def spawnExecPipe (s : St) (inj : Inj) (M : Nat) : St :=
+  match s.fails inj "pipe2" with
+  | some _ => s.tick inj "pipe2"
+  | none => (s.tick inj "pipe2").run [.create .pipe2 .pipe (.temp (2 * M)), .create .pipe2 .pipe (.temp (2 * M + 1)),
+                                      .closeOwner (.temp (2 * M + 1)) false, .closeOwner (.temp (2 * M)) false]
+
+/-- `cs`: containers; index 1 is always an inherited descriptor of the harness (no ledger effect). -/
 def spawnOp (s : St) (inj : Inj) (ok : Bool) (cs : List Cont) : St :=
   let p := s.hs.length
   let s := s.newH { kind := .proc }
-  let conts : List (Nat × Cont) := (List.range cs.length).map (fun i => (i, cs.getD i .ignore))
-  let pipes : List (Nat × Nat) := conts.filterMap (fun ic => match ic.2 with | .pipe h => some (ic.1, h) | _ => none)
-  -- error: label (process.c:1093-1108): close what was created so far ([0] then [1], container order);
-  -- UV_INHERIT_FD / UV_INHERIT_STREAM slots are skipped
-  let cleanup (s : St) (done : List (Nat × Nat)) : St :=
-    s.run (done.reverse.flatMap (fun (j, _) => [Prim.closeOwner (.temp (2 * j)) false, .closeOwner (.temp (2 * j + 1)) false]))
-  -- uv__process_init_stdio for each container, in order (process.c:188-239)
-  let rec initStdio (s : St) (done : List (Nat × Nat)) : List (Nat × Cont) → St × Bool
-    | [] => (s, true)
-    | (i, .pipe h) :: rest =>
-      (match s.sys inj "socketpair" with
-      | (some _, s) => (cleanup s done, false)
-      | (none, s) =>
-        initStdio (s.run [.create .socketpair .sock (.temp (2 * i)), .create .socketpair .sock (.temp (2 * i + 1))]) ((i, h) :: done) rest)
-    | (_, .stream h) :: rest =>
-      -- a stream without descriptor: UV_EINVAL
-      if s.has (.handle h .io) then initStdio s done rest else (cleanup s done, false)
-    | _ :: rest => initStdio s done rest
-  match initStdio s [] conts with
-  | (s, false) => ret (s.setH p (fun h => { h with st := .closing })) false
-  | (s, true) =>
+  match initStdio inj s 0 cs with
+  | (s, none) => ret (s.setH p (fun h => { h with st := .closing })) false
+  | (s, some M) =>
     -- uv__spawn_and_init_child: the exec-error pipe
-    let (execOk, s) := match s.sys inj "pipe2" with
-      | (some _, s) => (false, s)
-      | (none, s) => (ok, s.run [.create .pipe2 .pipe (.temp 100), .create .pipe2 .pipe (.temp 101),
-                               .closeOwner (.temp 101) false, .closeOwner (.temp 100) false])
-    -- uv__process_open_stream for each container, in order
-    let rec openStreams (s : St) (done : List (Nat × Nat)) : List (Nat × Nat) → St × Bool
-      | [] => (s, true)
-      | (i, h) :: rest =>
-        let s := s.run [.closeOwner (.temp (2 * i + 1)) false]
-        if s.has (.handle h .io) then
-          -- UV_EBUSY: close the streams opened so far (latest first), then everything still in pipes[][]
-          let s := done.foldl (fun s (_, hj) => s.run (streamClosePrims s hj)) s
-          let s := s.run [.closeOwner (.temp (2 * i)) false]
-          let s := s.run (rest.flatMap (fun (j, _) => [Prim.closeOwner (.temp (2 * j)) false, .closeOwner (.temp (2 * j + 1)) false]))
-          (s, false)
-        else
-          openStreams ((s.run [.transfer (.temp (2 * i)) (.handle h .io)]).setH h (fun x => { x with readable := true })) ((i, h) :: done) rest
-    match openStreams s [] pipes with
+    let execOk := (s.fails inj "pipe2").isNone && ok
+    let s := spawnExecPipe s inj M
+    match openStreams M s 0 [] (pipeHandles cs) with
     | (s, false) => ret (s.setH p (fun h => { h with st := .closing })) false
     | (s, true) =>
       if execOk then ret s true else ret (s.setH p (fun h => { h with st := .closing })) false
@@ -243,255 +271,312 @@ def userEntry (s : St) (f : Nat) : Option Entry :=
   | some e => if e.owner = .user then some e else none
   | none => none
 
+/-! ## the catalogue, one definition per API operation -/
+
+/-- make sure handle h has a socket (maybe_new_socket tcp.c:86-109, uv__udp_bind udp.c:375-382, pipe connect):
+    `none` = socket() failed -/
+def ensureSock (s : St) (inj : Inj) (h : Nat) : Option St :=
+  if s.has (.handle h .io) then some s else
+  match s.fails inj "socket" with
+  | some _ => none
+  | none => some ((s.tick inj "socket").run [.create .uvSocket .sock (.handle h .io)])
+
+/-- the loop's io_uring control ring (linux.c:654 → uv__iou_init): silently absent when the kernel refuses -/
+def loopInitRing (s : St) (inj : Inj) : St :=
+  match s.fails inj "io_uring_setup" with
+  | some _ => s.tick inj "io_uring_setup"
+  | none => (s.tick inj "io_uring_setup").run [.create .ioUring .ring (.loop .ring)]
+
+/-- uv__signal_global_once_init (signal.c:79-112), once per process -/
+def loopInitLock (s : St) (inj : Inj) : St :=
+  if s.lockDone then s else
+  { (s.tick inj "pipe2").run [.create .pipe2 .pipe (.glob 0), .create .pipe2 .pipe (.glob 1)] with lockDone := true }
+
+/-- uv__process_init → uv_signal_init → uv__signal_loop_once_init (signal.c:262-280), then
+    uv_async_init(&loop->wq_async) → uv__async_start (async.c:258-318); failure exits of loop.c:100-128 -/
+def loopInitTail (s : St) (inj : Inj) : St :=
+  match s.fails inj "pipe2" with
+  | some _ =>
+    -- fail_signal_init: uv__platform_loop_delete, then backend_fd (loop.c:115-120)
+    ret ((s.tick inj "pipe2").run [.closeOwner (.loop .ring) false, .closeOwner (.loop .backend) false]) false
+  | none =>
+    let s := (s.tick inj "pipe2").run [.create .pipe2 .pipe (.loop .sig0), .create .pipe2 .pipe (.loop .sig1)]
+    match s.fails inj "eventfd" with
+    | some _ =>
+      ret ((s.tick inj "eventfd").run [.closeOwner (.loop .sig0) false, .closeOwner (.loop .sig1) false,
+                  .closeOwner (.loop .ring) false, .closeOwner (.loop .backend) false]) false
+    | none => ret { (s.tick inj "eventfd").run [.create .eventfd .evfd (.loop .async)] with loopOk := true } true
+
+def opLoopInit (s : St) (inj : Inj) : St :=
+  if s.loopOk then bad s else
+  -- uv__platform_loop_init (linux.c:640-657)
+  match s.fails inj "epoll_create1" with
+  | some _ => ret (s.tick inj "epoll_create1") false
+  | none =>
+    loopInitTail (loopInitLock (loopInitRing
+      ((s.tick inj "epoll_create1").run [.create .epollCreate .epoll (.loop .backend)]) inj) inj) inj
+
+/-- uv__loop_close (loop.c:166-200): `loopClosePrims` = sig0, sig1, ring, inotify, async, emfile, backend -/
+def opLoopClose (s : St) : St :=
+  if !s.loopOk then ret s false else
+  if s.hs.any (fun h => h.st = .live || h.st = .closing) then ret s false else
+  ret { s.run loopClosePrims with loopOk := false } true
+
+def opUfd (s : St) (kind : String) (at_ : Option Nat) : St :=
+  match userKind kind with
+  | none => bad s
+  | some ks =>
+    let stdioClash := match at_ with
+      | some n => n > 1 || s.l.1.led.any (fun e => e.stdio)
+      | none => false
+    if stdioClash then bad s else
+    s.run ((List.range ks.length).map (fun i => Prim.userCreate (ks.getD i .sock) (i = 0 && at_.isSome)))
+
+def opUclose (s : St) (f : Nat) : St :=
+  match userEntry s f with
+  | some _ => s.run [.userClose f]
+  | none => bad s
+
+def opUvPipe (s : St) (inj : Inj) : St :=
+  match s.fails inj "pipe2" with
+  | some _ => ret (s.tick inj "pipe2") false
+  | none => ret ((s.tick inj "pipe2").run [.createGive .pipe2 .pipe, .createGive .pipe2 .pipe]) true
+
+def opUvSocketpair (s : St) (inj : Inj) : St :=
+  match s.fails inj "socketpair" with
+  | some _ => ret (s.tick inj "socketpair") false
+  | none => ret ((s.tick inj "socketpair").run [.createGive .socketpair .sock, .createGive .socketpair .sock]) true
+
+def opTcpInit (s : St) (inj : Inj) (af : Bool) : St :=
+  let i := s.hs.length
+  let s := emfileInit (s.newH { kind := .tcp }) inj
+  if af then
+    match s.fails inj "socket" with
+    | some _ => ret ((s.tick inj "socket").setH i (fun h => { h with st := .dead })) false
+    | none => ret ((s.tick inj "socket").run [.create .uvSocket .sock (.handle i .io)]) true
+  else ret s true
+
+def opUdpInit (s : St) (inj : Inj) (af : Bool) : St :=
+  let i := s.hs.length
+  let s := s.newH { kind := .udp }
+  if af then
+    match s.fails inj "socket" with
+    | some _ => ret ((s.tick inj "socket").setH i (fun h => { h with st := .dead })) false
+    | none => ret ((s.tick inj "socket").run [.create .uvSocket .sock (.handle i .io)]) true
+  else ret s true
+
+def opTtyInit (s : St) (inj : Inj) (f : Nat) : St :=
+  match userEntry s f with
+  | none => bad s
+  | some e =>
+    let i := s.hs.length
+    if e.kind = .file then ret (s.newH { kind := .tty, st := .dead }) false
+    else
+      let s := emfileInit (s.newH { kind := .tty, readable := true }) inj
+      ret (s.run [.adopt f (.handle i .io)]) true
+
+def opPollInit (s : St) (f : Nat) : St :=
+  match findId? s.l.1.led f with
+  | none => bad s
+  | some e =>
+    if e.kind = .file then ret (s.newH { kind := .poll, st := .dead }) false
+    else ret (s.newH { kind := .poll }) true
+
+def opFsEventStart (s : St) (inj : Inj) (ok : Bool) : St :=
+  let s := s.newH { kind := .fsev }
+  if s.has (.loop .inotify) then ret s ok else
+  match s.fails inj "inotify_init1" with
+  | some _ => ret (s.tick inj "inotify_init1") false
+  | none => ret ((s.tick inj "inotify_init1").run [.create .inotifyInit .inot (.loop .inotify)]) ok
+
+def opOpen (s : St) (h f : Nat) : St :=
+  match s.liveH h, userEntry s f with
+  | some hh, some e =>
+    if !(hh.kind = .tcp || hh.kind = .pipe || hh.kind = .udp) then bad s else
+    if s.has (.handle h .io) then ret s false else
+    if hh.kind = .udp && e.kind ≠ .sock then ret s false else
+    ret ((s.run [.adopt f (.handle h .io)]).setH h (fun x => { x with readable := true })) true
+  | _, _ => bad s
+
+def opBind (s : St) (inj : Inj) (h : Nat) (variant : String) : St :=
+  match s.liveH h with
+  | none => bad s
+  | some hh =>
+    if !(variant = "ok" || variant = "bad" || variant = "same") then bad s else
+    if hh.kind = .tcp || hh.kind = .udp then
+      -- the socket stays in the handle whatever bind(2) says
+      match ensureSock s inj h with
+      | none => ret (s.tick inj "socket") false
+      | some s =>
+        if hh.bound then ret s false else
+        if variant = "bad" then ret s false else
+        if variant = "same" then
+          if hh.kind = .tcp then ret (s.setH h (fun x => { x with bound := true, delayed := true })) true
+          else ret s false
+        else ret (s.setH h (fun x => { x with bound := true })) true
+    else if hh.kind = .pipe then
+      -- uv_pipe_bind2 (pipe.c:61-150)
+      if s.has (.handle h .io) then ret s false else
+      match s.fails inj "socket" with
+      | some _ => ret (s.tick inj "socket") false
+      | none =>
+        let s := s.tick inj "socket"
+        if variant = "ok" then ret ((s.run [.create .uvSocket .sock (.handle h .io)]).setH h (fun x => { x with bound := true })) true
+        else ret (s.run [.create .uvSocket .sock (.temp 0), .closeOwner (.temp 0) false]) false
+    else bad s
+
+def opListen (s : St) (inj : Inj) (h : Nat) : St :=
+  match s.liveH h with
+  | none => bad s
+  | some hh =>
+    if hh.kind = .tcp then
+      if hh.delayed then ret s false else
+      match ensureSock s inj h with
+      | none => ret (s.tick inj "socket") false
+      | some s =>
+        if hh.connected then ret s false else
+        ret (s.setH h (fun x => { x with listening := true, bound := true })) true
+    else if hh.kind = .pipe then
+      if !s.has (.handle h .io) || hh.ipc || !hh.bound then ret s false
+      else ret (s.setH h (fun x => { x with listening := true })) true
+    else bad s
+
+/-- tcp.c:309-318: with a delayed bind error no socket is made (and no connect(2) either) -/
+def connSock (s : St) (inj : Inj) (h : Nat) (delayed : Bool) : Option St :=
+  if delayed then some s else ensureSock s inj h
+
+def opConnect (s : St) (inj : Inj) (h : Nat) (target : Option Nat) : St :=
+  match s.liveH h with
+  | none => bad s
+  | some hh =>
+    let tgtOk := match target with
+      | some t => (match s.liveH t with | some th => th.kind = hh.kind && th.listening | none => false)
+      | none => false
+    let bump (s : St) : St := match target with
+      | some t => if tgtOk then s.setH t (fun x => { x with pending := x.pending + 1 }) else s
+      | none => s
+    if hh.kind = .tcp then
+      let badTarget : Bool := match target with
+        | some t => decide (((s.liveH t).map (·.kind)) ≠ some .tcp)
+        | none => false
+      if badTarget then bad s else
+      if hh.connected then ret s false else
+      match connSock s inj h hh.delayed with
+      | none => ret (s.tick inj "socket") false
+      | some s =>
+        -- tcp.c:309-310: with a delayed bind error no connect(2) is made at all
+        let s := s.setH h (fun x => { x with connected := true, readable := true })
+        ret (if hh.delayed then s else bump s) true
+    else if hh.kind = .pipe then
+      match ensureSock s inj h with
+      | none => ret (s.tick inj "socket") true
+      | some s =>
+        if hh.connected || hh.listening then ret s true else
+        ret (bump (s.setH h (fun x => { x with connected := tgtOk, readable := x.readable || tgtOk }))) true
+    else bad s
+
+def opAccept (s : St) (sv c : Nat) : St :=
+  match s.liveH sv, s.liveH c with
+  | some _, some ch =>
+    if !s.has (.handle sv .acc) then ret s false else
+    if !(ch.kind = .tcp || ch.kind = .pipe || ch.kind = .udp || ch.kind = .tty) then ret s false else
+    ret (acceptInto s sv c ch.kind) (acceptOk s c ch.kind)
+  | _, _ => bad s
+
+def opClose (s : St) (h : Nat) : St :=
+  match s.liveH h with
+  | none => bad s
+  | some hh =>
+    let s := if isStream hh.kind then s.run (streamClosePrims h)
+             else if hh.kind = .udp then s.run [.closeOwner (.handle h .io) true]   -- uv__udp_close (udp.c:56-66)
+             else s
+    ret (s.setH h (fun x => { x with st := .closing, listening := false, reading := false })) true
+
+def opRun (s : St) (inj : Inj) : St :=
+  let s := runLoop inj (runFuel s) s
+  ret { s with hs := s.hs.map (fun h =>
+          if h.st = .closing || (h.kind = .proc && h.st = .live) then { h with st := .closed } else h) } true
+
+def opFsOpen (s : St) (inj : Inj) (variant : String) : St :=
+  if !(variant = "ok" || variant = "creat" || variant = "missing") then bad s else
+  match s.fails inj "open" with
+  | some _ => ret (s.tick inj "open") false
+  | none =>
+    let s := s.tick inj "open"
+    if variant = "missing" then ret s false else (s.run [.createGive .fsOpen .file]).say s!"ret f{s.l.1.next}"
+
+def opFsClose (s : St) (f : Nat) : St :=
+  match userEntry s f with
+  | some e => if e.stdio then bad s else ret (s.run [.closeUser f]) true
+  | none => bad s
+
+/-- uv__fs_copyfile (fs.c:1230-1425): both descriptors are closed on every exit -/
+def opFsCopyfile (s : St) (inj : Inj) (ok : Bool) : St :=
+  match s.fails inj "open" with
+  | some _ => ret (s.tick inj "open") false
+  | none =>
+    let s := s.tick inj "open"
+    if !ok then ret s false else
+    let s := s.run [.create .fsOpen .file (.temp 0)]
+    match s.fails inj "open" with
+    | some _ => ret ((s.tick inj "open").run [.closeOwner (.temp 0) false]) false
+    | none => ret ((s.tick inj "open").run [.create .fsOpen .file (.temp 1), .closeOwner (.temp 0) false, .closeOwner (.temp 1) false]) true
+
+def opIpcSend (s : St) (f h : Nat) (kinds : List HKind) : St :=
+  match userEntry s f with
+  | none => bad s
+  | some _ =>
+    -- the harness sends over the peer of handle h's socketpair end: fails (EPIPE) once h closed its end
+    let ok := (s.liveH h).isSome && s.has (.handle h .io)
+    ret (if ok then s.setH h (fun x => { x with inflight := x.inflight ++ [kinds] }) else s) ok
+
+def opSpawn (s : St) (inj : Inj) (ok : Bool) (cs : List Cont) : St :=
+  if cs.any (fun c => match c with
+      | .pipe h => ((s.liveH h).map (·.kind)) ≠ some .pipe
+      | .stream h => !(((s.liveH h).map (fun x => isStream x.kind)).getD false)
+      | .fd f => (findId? s.l.1.led f).isNone
+      | .ignore => false) then bad s
+  else spawnOp s inj ok cs
+
 def step (s : St) (inj : Inj) (op : Op) : St :=
   let s := { s with cnt := [] }
   match op with
-  | .loopInit =>
-    if s.loopOk then bad s else
-    -- uv__platform_loop_init (linux.c:640-657)
-    match s.sys inj "epoll_create1" with
-    | (some _, s) => ret s false
-    | (none, s) =>
-      let s := s.run [.create .epollCreate .epoll (.loop .backend)]
-      let s := match s.sys inj "io_uring_setup" with
-        | (some _, s) => s
-        | (none, s) => s.run [.create .ioUring .ring (.loop .ring)]
-      -- uv__signal_global_once_init (signal.c:79-112), once per process
-      let s := if s.lockDone then s else
-        let (_, s) := s.sys inj "pipe2"
-        { s.run [.create .pipe2 .pipe (.glob 0), .create .pipe2 .pipe (.glob 1)] with lockDone := true }
-      -- uv__process_init → uv_signal_init → uv__signal_loop_once_init (signal.c:262-280)
-      match s.sys inj "pipe2" with
-      | (some _, s) =>
-        -- fail_signal_init: uv__platform_loop_delete, then backend_fd (loop.c:115-120)
-        ret (s.run [.closeOwner (.loop .ring) false, .closeOwner (.loop .backend) false]) false
-      | (none, s) =>
-        let s := s.run [.create .pipe2 .pipe (.loop .sig0), .create .pipe2 .pipe (.loop .sig1)]
-        -- uv_async_init(&loop->wq_async) → uv__async_start (async.c:258-318)
-        match s.sys inj "eventfd" with
-        | (some _, s) =>
-          ret (s.run [.closeOwner (.loop .sig0) false, .closeOwner (.loop .sig1) false,
-                      .closeOwner (.loop .ring) false, .closeOwner (.loop .backend) false]) false
-        | (none, s) => ret { s.run [.create .eventfd .evfd (.loop .async)] with loopOk := true } true
-  | .loopClose =>
-    if !s.loopOk then ret s false else
-    if s.hs.any (fun h => h.st = .live || h.st = .closing) then ret s false else
-    -- uv__loop_close (loop.c:166-200)
-    ret { s.run [.closeOwner (.loop .sig0) false, .closeOwner (.loop .sig1) false, .closeOwner (.loop .ring) false,
-                 .closeOwner (.loop .inotify) false, .closeOwner (.loop .async) false,
-                 .closeOwner (.loop .emfile) false, .closeOwner (.loop .backend) false] with loopOk := false } true
-  | .ufd kind at_ =>
-    match userKind kind with
-    | none => bad s
-    | some ks =>
-      let stdioClash := match at_ with
-        | some n => n > 1 || s.l.1.led.any (fun e => e.stdio)
-        | none => false
-      if stdioClash then bad s else
-      s.run ((List.range ks.length).map (fun i => Prim.userCreate (ks.getD i .sock) (i = 0 && at_.isSome)))
-  | .uclose f =>
-    match userEntry s f with
-    | some _ => s.run [.userClose f]
-    | none => bad s
-  | .uvPipe =>
-    match s.sys inj "pipe2" with
-    | (some _, s) => ret s false
-    | (none, s) => ret (s.run [.createGive .pipe2 .pipe, .createGive .pipe2 .pipe]) true
-  | .uvSocketpair =>
-    match s.sys inj "socketpair" with
-    | (some _, s) => ret s false
-    | (none, s) => ret (s.run [.createGive .socketpair .sock, .createGive .socketpair .sock]) true
+  | .loopInit => opLoopInit s inj
+  | .loopClose => opLoopClose s
+  | .ufd kind at_ => opUfd s kind at_
+  | .uclose f => opUclose s f
+  | .uvPipe => opUvPipe s inj
+  | .uvSocketpair => opUvSocketpair s inj
   | .end_ => ret (s.run [.userCloseAll]) true
   | op =>
     if !s.loopOk then bad s else
     match op with
-    | .tcpInit af =>
-      let i := s.hs.length
-      let s := emfileInit (s.newH { kind := .tcp }) inj
-      if af then
-        match s.sys inj "socket" with
-        | (some _, s) => ret (s.setH i (fun h => { h with st := .dead })) false
-        | (none, s) => ret (s.run [.create .uvSocket .sock (.handle i .io)]) true
-      else ret s true
+    | .tcpInit af => opTcpInit s inj af
     | .pipeInit ipc => ret (emfileInit (s.newH { kind := .pipe, ipc := ipc }) inj) true
-    | .udpInit af =>
-      let i := s.hs.length
-      let s := s.newH { kind := .udp }
-      if af then
-        match s.sys inj "socket" with
-        | (some _, s) => ret (s.setH i (fun h => { h with st := .dead })) false
-        | (none, s) => ret (s.run [.create .uvSocket .sock (.handle i .io)]) true
-      else ret s true
-    | .ttyInit f =>
-      match userEntry s f with
-      | none => bad s
-      | some e =>
-        let i := s.hs.length
-        if e.kind = .file then ret (s.newH { kind := .tty, st := .dead }) false
-        else
-          let s := emfileInit (s.newH { kind := .tty, readable := true }) inj
-          ret (s.run [.adopt f (.handle i .io)]) true
-    | .pollInit f =>
-      match findId? s.l.1.led f with
-      | none => bad s
-      | some e =>
-        if e.kind = .file then ret (s.newH { kind := .poll, st := .dead }) false
-        else ret (s.newH { kind := .poll }) true
+    | .udpInit af => opUdpInit s inj af
+    | .ttyInit f => opTtyInit s inj f
+    | .pollInit f => opPollInit s f
     | .asyncInit => ret (s.newH { kind := .async }) true
     | .signalStart => ret (s.newH { kind := .signal }) true
-    | .fsEventStart ok =>
-      let s := s.newH { kind := .fsev }
-      if s.has (.loop .inotify) then ret s ok else
-      match s.sys inj "inotify_init1" with
-      | (some _, s) => ret s false
-      | (none, s) => ret (s.run [.create .inotifyInit .inot (.loop .inotify)]) ok
-    | .open_ h f =>
-      match s.liveH h, userEntry s f with
-      | some hh, some e =>
-        if !(hh.kind = .tcp || hh.kind = .pipe || hh.kind = .udp) then bad s else
-        if s.has (.handle h .io) then ret s false else
-        if hh.kind = .udp && e.kind ≠ .sock then ret s false else
-        ret ((s.run [.adopt f (.handle h .io)]).setH h (fun x => { x with readable := true })) true
-      | _, _ => bad s
-    | .bind h variant other =>
-      match s.liveH h with
-      | none => bad s
-      | some hh =>
-        if !(variant = "ok" || variant = "bad" || variant = "same") then bad s else
-        match hh.kind with
-        | .tcp | .udp =>
-          -- maybe_new_socket (tcp.c:86-109) / uv__udp_bind (udp.c:375-382): the socket stays in the handle
-          let (sockOk, s) := if s.has (.handle h .io) then (true, s) else
-            match s.sys inj "socket" with
-            | (some _, s) => (false, s)
-            | (none, s) => (true, s.run [.create .uvSocket .sock (.handle h .io)])
-          if !sockOk then ret s false else
-          if hh.bound then ret s false else
-          if variant = "bad" then ret s false else
-          if variant = "same" then
-            if hh.kind = .tcp then ret (s.setH h (fun x => { x with bound := true, delayed := true })) true
-            else ret s false
-          else ret (s.setH h (fun x => { x with bound := true })) true
-        | .pipe =>
-          -- uv_pipe_bind2 (pipe.c:61-150)
-          if s.has (.handle h .io) then ret s false else
-          (match s.sys inj "socket" with
-          | (some _, s) => ret s false
-          | (none, s) =>
-            if variant = "ok" then ret ((s.run [.create .uvSocket .sock (.handle h .io)]).setH h (fun x => { x with bound := true })) true
-            else ret (s.run [.create .uvSocket .sock (.temp 0), .closeOwner (.temp 0) false]) false)
-        | _ => bad s
-    | .listen h =>
-      match s.liveH h with
-      | none => bad s
-      | some hh =>
-        match hh.kind with
-        | .tcp =>
-          if hh.delayed then ret s false else
-          let (sockOk, s) := if s.has (.handle h .io) then (true, s) else
-            match s.sys inj "socket" with
-            | (some _, s) => (false, s)
-            | (none, s) => (true, s.run [.create .uvSocket .sock (.handle h .io)])
-          if !sockOk then ret s false else
-          if hh.connected then ret s false else
-          ret (s.setH h (fun x => { x with listening := true, bound := true })) true
-        | .pipe =>
-          if !s.has (.handle h .io) || hh.ipc || !hh.bound then ret s false
-          else ret (s.setH h (fun x => { x with listening := true })) true
-        | _ => bad s
-    | .policy h p => match s.liveH h with | some _ => s.setH h (fun x => { x with policy := p }) | none => bad s
+    | .fsEventStart ok => opFsEventStart s inj ok
+    | .open_ h f => opOpen s h f
+    | .bind h variant _ => opBind s inj h variant
+    | .listen h => opListen s inj h
+    | .policy h p => (match s.liveH h with | some _ => s.setH h (fun x => { x with policy := p }) | none => bad s)
     | .readStart h =>
-      match s.liveH h with
+      (match s.liveH h with
       | none => bad s
-      | some hh => if hh.readable then ret (s.setH h (fun x => { x with reading := true })) true else ret s false
-    | .connect h target =>
-      match s.liveH h with
-      | none => bad s
-      | some hh =>
-        let tgtOk := match target with
-          | some t => (match s.liveH t with | some th => th.kind = hh.kind && th.listening | none => false)
-          | none => false
-        let bump (s : St) : St := match target with
-          | some t => if tgtOk then s.setH t (fun x => { x with pending := x.pending + 1 }) else s
-          | none => s
-        match hh.kind with
-        | .tcp =>
-          let badTarget : Bool := match target with
-            | some t => decide (((s.liveH t).map (·.kind)) ≠ some .tcp)
-            | none => false
-          if badTarget then bad s else
-          if hh.connected then ret s false else
-          let (sockOk, s) := if hh.delayed || s.has (.handle h .io) then (true, s) else
-            match s.sys inj "socket" with
-            | (some _, s) => (false, s)
-            | (none, s) => (true, s.run [.create .uvSocket .sock (.handle h .io)])
-          if !sockOk then ret s false else
-          -- tcp.c:309-310: with a delayed bind error no connect(2) is made at all
-          let s := s.setH h (fun x => { x with connected := true, readable := true })
-          ret (if hh.delayed then s else bump s) true
-        | .pipe =>
-          let (sockOk, s) := if s.has (.handle h .io) then (true, s) else
-            match s.sys inj "socket" with
-            | (some _, s) => (false, s)
-            | (none, s) => (true, s.run [.create .uvSocket .sock (.handle h .io)])
-          if !sockOk then ret s true else
-          if hh.connected || hh.listening then ret s true else
-          ret (bump (s.setH h (fun x => { x with connected := tgtOk, readable := x.readable || tgtOk }))) true
-        | _ => bad s
-    | .accept sv c =>
-      match s.liveH sv, s.liveH c with
-      | some _, some ch =>
-        if !s.has (.handle sv .acc) then ret s false else
-        if !(ch.kind = .tcp || ch.kind = .pipe || ch.kind = .udp || ch.kind = .tty) then ret s false else
-        let (s, ok) := acceptInto s sv c ch.kind
-        ret s ok
-      | _, _ => bad s
-    | .close h =>
-      match s.liveH h with
-      | none => bad s
-      | some hh =>
-        let s := if isStream hh.kind then s.run (streamClosePrims s h)
-                 else if hh.kind = .udp then s.run [.closeOwner (.handle h .io) true]   -- uv__udp_close (udp.c:56-66)
-                 else s
-        ret (s.setH h (fun x => { x with st := .closing, listening := false, reading := false })) true
-    | .run =>
-      let s := runLoop inj (runFuel s) s
-      ret { s with hs := s.hs.map (fun h =>
-              if h.st = .closing || (h.kind = .proc && h.st = .live) then { h with st := .closed } else h) } true
-    | .fsOpen variant =>
-      if !(variant = "ok" || variant = "creat" || variant = "missing") then bad s else
-      (match s.sys inj "open" with
-      | (some _, s) => ret s false
-      | (none, s) => if variant = "missing" then ret s false else (s.run [.createGive .fsOpen .file]).say s!"ret f{s.l.1.next}")
+      | some hh => if hh.readable then ret (s.setH h (fun x => { x with reading := true })) true else ret s false)
+    | .connect h target => opConnect s inj h target
+    | .accept sv c => opAccept s sv c
+    | .close h => opClose s h
+    | .run => opRun s inj
+    | .fsOpen variant => opFsOpen s inj variant
     | .fsMkstemp => (s.run [.createGive .mkostemp .file]).say s!"ret f{s.l.1.next}"
-    | .fsClose f =>
-      match userEntry s f with
-      | some e => if e.stdio then bad s else ret (s.run [.closeUser f]) true
-      | none => bad s
-    | .fsCopyfile ok =>
-      -- uv__fs_copyfile (fs.c:1230-1425): both descriptors are closed on every exit
-      (match s.sys inj "open" with
-      | (some _, s) => ret s false
-      | (none, s) =>
-        if !ok then ret s false else
-        let s := s.run [.create .fsOpen .file (.temp 0)]
-        match s.sys inj "open" with
-        | (some _, s) => ret (s.run [.closeOwner (.temp 0) false]) false
-        | (none, s) => ret (s.run [.create .fsOpen .file (.temp 1), .closeOwner (.temp 0) false, .closeOwner (.temp 1) false]) true)
-    | .ipcSend f h kinds =>
-      match userEntry s f with
-      | none => bad s
-      | some _ =>
-        -- the harness sends over the peer of handle h's socketpair end: fails (EPIPE) once h closed its end
-        let ok := (s.liveH h).isSome && s.has (.handle h .io)
-        ret (if ok then s.setH h (fun x => { x with inflight := x.inflight ++ [kinds] }) else s) ok
-    | .spawn ok cs =>
-      if cs.any (fun c => match c with
-          | .pipe h => ((s.liveH h).map (·.kind)) ≠ some .pipe
-          | .stream h => !(((s.liveH h).map (fun x => isStream x.kind)).getD false)
-          | .fd f => (findId? s.l.1.led f).isNone
-          | .ignore => false) then bad s
-      else spawnOp s inj ok cs
+    | .fsClose f => opFsClose s f
+    | .fsCopyfile ok => opFsCopyfile s inj ok
+    | .ipcSend f h kinds => opIpcSend s f h kinds
+    | .spawn ok cs => opSpawn s inj ok cs
     | _ => bad s
 
 def ownerStr : Owner → String
